@@ -545,16 +545,20 @@ def race_extra(tier, rng, workdir):
     safe after it was reported unsafe, nor safe and unsafe at once."""
     cfg = {"txs": [[1, [1000], 1], [2, [1000, 1001], 1], [3, [1001], 0]], "delay": DELAY}
     cases = []
-    for opn in ("race_delay", "race_send"):
+    for opn in ("race_delay", "race_send", "race_read"):
         for first, conflict, src in ((1, 2, 1), (1, 2, 0), (2, 1, 1), (2, 3, 1)):
+            # race_read = race_delay with the check held right after its READ of the state (before it decides)
+            rop = ["race_delay", first, conflict, src, 1] if opn == "race_read" else [opn, first, conflict, src]
             cases.append({"cfg": cfg, "ops": [["setinsync", 1], ["tx", first, 0], ["advance", 75000],
-                                              [opn, first, conflict, src], ["unconf"], ["delaycheck"]]})
+                                              rop, ["unconf"], ["delaycheck"]]})
     results, _ = vlib.run_harness("txflow", cases, workdir, tag="race")
     failures = []
-    reached = {"race_delay": 0, "race_send": 0}
+    reached = {"race_delay": 0, "race_send": 0, "race_read": 0}
     for c, r in zip(cases, results):
         ob = r[3]
         opn, t = c["ops"][3][0], c["ops"][3][1]
+        if len(c["ops"][3]) > 4:
+            opn = "race_read"
         reached[opn] += ob[1] if len(ob) > 1 else 0
         seen_unsafe = False
         for ev in parse_events(ob[2:]) + parse_events(r[5][1:]):
@@ -634,6 +638,7 @@ def race_extra(tier, rng, workdir):
             "coverage": {"reannounced_with_orphaned_proof_not_judged": stale_coverage(),
                          "rmw_race_scenarios": len(cases), "rmw_race_pause_point_reached": reached["race_delay"],
                          "send_race_pause_point_reached": reached["race_send"],
+                         "read_race_pause_point_reached": reached["race_read"],
                          "block_tx_race_scenarios": len(bcases), "block_tx_race_pause_point_reached": breached,
                          "block_conflict_race_scenarios": len(ccases), "block_conflict_race_pause_point_reached": creached}}
 
